@@ -132,9 +132,10 @@ type asyncRes struct {
 }
 
 type run struct {
-	sc  *Scenario
-	res *Result
-	t   *testing.T
+	free *freeRun // set when this is only an adapter for a free-running case
+	sc   *Scenario
+	res  *Result
+	t    *testing.T
 
 	d  *dials.Dials[SimCfg]
 	ws []*fake.Watcher
@@ -201,6 +202,10 @@ func (r *run) viol(tag, format string, a ...any) {
 func (r *run) label(l string) { r.res.Labels[l] = true }
 
 func (r *run) onVerify(c *SimCfg, err error) {
+	if r.free != nil {
+		r.free.onVerifyFree(c, err)
+		return
+	}
 	var view *SimCfg
 	if r.d != nil {
 		view = r.d.View()
